@@ -20,6 +20,11 @@ CHECKS = {
    text='Every assignment of {ok, missing, altered, resized, replaced-by-directory} to <=4 (quick) / <=6 (thorough) listed files in several directories x stray-file sets x every verified sub-path x 5 handler policies x 2 directory enumeration orders; the multiset of paths passed to the handler (and logged by gemato verify -k) must equal the reference offender set, the result must be False iff a handler call returned False, and no file descriptor may be lost per offender.',
    note='Trusted: gverif/refverify.py offender set; os.scandir order seam (monkeypatch). Offenders under IGNOREd paths or beneath a directory that replaced a listed file are DONT_CARE.',
    ref='DESIGN.md §3 C07'),
+ 'C03': dict(level='model_checking',
+   technique='bounded-exhaustive exploration of prior Manifest state x edit x options x target x interface (+ two-round histories) on real update/save vs reference exact-coverage predicate',
+   text='Every prior Manifest state of a 45-entry menu (absent, flat, nested x compression, equal/sub/super/disjoint and stale duplicates, parent+child duplicates, unregistered valid/invalid/compressed Manifests, several Manifests per directory, same-directory chains, IGNORE, entry naming a directory) x 8 edits x option combinations x whole-tree and sub-directory targets x library and CLI, plus all two-round edit/update histories; after every update that completes, the disk is re-read by the reference parser and must describe the updated directory exactly (each file once, true size/digests, requested hashes, chain intact) and a fresh gemato verify must succeed.',
+   note='Trusted: gverif/refverify.py + refmanifest.py. One base tree (4 files, 3 directories). Updates that raise are not judged here (C10/C18). Two genuine defects are listed in known_findings.json (one pinned by an existing test, one not small to repair).',
+   ref='DESIGN.md §3 C03'),
 }
 NOT_YET = {}
 
